@@ -37,8 +37,10 @@ def op_inline_file(task):
     d = tempfile.mkdtemp(prefix="c16_")
     cases = 0
     try:
-        for name in ("a.c", "b.h", "x y.c", "dir.d/z.c", "noext", "a.b.c.h"):
-            data = "int\tmain(void)\n{\n\treturn (0);\n}\n"
+        for name, data in [(n, "int\tmain(void)\n{\n\treturn (0);\n}\n") for n in
+                           ("a.c", "b.h", "x y.c", "dir.d/z.c", "noext", "a.b.c.h")] + \
+                [("nonl.c", "int\tmain(void)\n{\n\treturn (0);\n}"), ("empty.c", ""),
+                 ("blank.c", "\n\n"), ("tabs.h", "\t\t")]:
             path = os.path.join(d, name)
             os.makedirs(os.path.dirname(path), exist_ok=True)
             with open(path, "w") as fh:
@@ -96,6 +98,7 @@ def op_cli(task):
     rnd.shuffle(samples)
     files = [(os.path.basename(p), open(p).read()) for p in samples[: (14 if thorough else 5)]]
     files.append(("clean.c", content("clean", "clean.c")))
+    files.append(("nonl.c", content("clean", "nonl.c").rstrip("\n")))        # no final newline
     files.append(("err.c", content("error", "err.c")))
     files.append(("def.c", HEADER.format(name="def.c") + "\n#define foo(x) x\n# define bar 1 +\n\nint\tmain(void)\n{\n\treturn (0);\n}\n"))
     optsets = []
